@@ -197,7 +197,7 @@ def check(case, ctx):
         info = {}
         if name == "eigenvector_centrality_und":
             ev = np.linalg.eigvalsh(np.asarray(W, dtype=float))
-            info["lambda_max_multiplicity"] = int(np.sum(ev > ev.max() - 1e-9))
+            info["lambda_max_multiplicity"] = int(np.sum(ev > ev.max() - 1e-9 * min(1.0, float(np.max(np.abs(ev))) or 1.0)))
         if o0.ok != op.ok:
             a = "returned" if o0.ok else "raised %s" % o0.exc_name()
             b = "returned" if op.ok else "raised %s(%s)" % (op.exc_name(), str(op.exc)[:60])
@@ -300,6 +300,9 @@ def graph(draw, kind, nmax):
         W = draw(gen.weights_for(A, draw(st.sampled_from(["tie", "dyadic"])), directed))
     else:
         W = draw(gen.weights_for(A, draw(st.sampled_from(["dyadic", "float", "bin"])), directed))
+    if kind in ("wu", "wd", "sign", "wu-conn", "len-d", "len-u"):
+        # the same network in another unit (exact for the dyadic weights): renumbering commutes with every measure in any unit
+        W = W * draw(st.sampled_from([1.0, 2.0 ** -30, 1.0, 2.0 ** 20, 1.0]))
     return W, fam
 
 
